@@ -293,6 +293,8 @@ def run(ctx):
                     ops += ["with_defaults"]       # MeshLine1 has no params(): default tags are not offered in 1-D
                 if kind in ("tri", "tet", "line") and type(m).__name__.endswith("1") and m.nelements <= 24:
                     ops += ["adaptive", "adaptive"]
+                if type(m).__name__.endswith("1") and m.nelements >= 2:
+                    ops += ["remove_duplicate_nodes", "remove_duplicate_nodes"]
                 op = ctx.rng.choice(ops)
                 before = (m.p.copy(), m.t.copy())
                 canon_before = canonical_topology(m)
@@ -320,6 +322,24 @@ def run(ctx):
                         if m.nelements > 1 else m
                 elif op == "refined":
                     md = m.refined(1) if m.nelements <= 16 else m
+                elif op == "remove_duplicate_nodes":
+                    # the same cells over a vertex array in which some vertices occur twice (as after gluing parts),
+                    # with a named boundary; tables queried, then the duplicates are removed
+                    nvv = m.p.shape[1]
+                    dup = sorted(ctx.rng.sample(range(nvv), ctx.rng.randint(1, max(1, nvv // 3))))
+                    p2 = np.hstack((m.p, m.p[:, dup]))
+                    t2 = m.t.copy()
+                    for j, v in enumerate(dup):
+                        cols = [k for k in range(t2.shape[1]) if (t2[:, k] == v).any()]
+                        for k in ctx.rng.sample(cols, ctx.rng.randint(1, len(cols))):
+                            t2[t2[:, k] == v, k] = nvv + j
+                    mq = type(m)(p2, t2)
+                    try:
+                        mq = mq.with_boundaries({"bnd": lambda x: x[0] > -1e9})
+                    except Exception:
+                        pass
+                    mq.facets, mq.t2f, mq.f2t
+                    md = mq.remove_duplicate_nodes()
                 elif op == "adaptive":
                     md = m.refined(np.array(sorted(ctx.rng.sample(range(m.nelements),
                                                                   ctx.rng.randint(1, m.nelements))), dtype=np.int64))
